@@ -992,7 +992,36 @@ def cross_layout(ctx, scratch, cov):
                               "(128x64 image on a 0.05 sigma/row ramp, grid %r, box %r)" % (nslice, db, dr, grid2, box2),
                               "stripe_dependence|ramp,grid=%r,box=%r,nslice=%d" % (grid2, box2, nslice), clause="cross_layout",
                               case=dict(nslice=nslice, cores=cores))
-    cov["cross_layout"] = dict(max_abs_difference_in_sigma=worst, max_abs_difference_nonsquare_box=worst2, threshold=0.25,
+    # blank bands of rows that cover whole stripes, with and without masking: the set of blank OUTPUT pixels must not depend on
+    # the number of stripes either
+    from astropy.io import fits as _fits
+    worst3 = 0.0
+    f3 = os.path.join(scratch, "c07_cross3.fits")
+    for band_name, band in (("bottom_quarter", slice(96, 128)), ("middle", slice(40, 72)), ("top_rows", slice(0, 33))):
+        E.make_image(f3, 128, 96, nan_block=False, offset=3.0, seed=13)
+        with _fits.open(f3, mode="update") as hl:
+            hl[0].data[band, :] = np.nan
+        for mask in (True, False):
+            ref3 = None
+            for nslice, cores in [(1, 1), (2, 2), (4, 4), (5, 3)]:
+                inst = dict(file=f3, shape=(128, 96), grid=(8, 8), box=(48, 48), cores=cores, nslice=nslice, mask=mask, name="cross3")
+                o = run_schedule(inst, (), mode="sync")
+                ctx.count("cross_layout_runs")
+                if o.outcome != "ok":
+                    continue
+                if ref3 is None:
+                    ref3 = o
+                    continue
+                nb = int(np.sum(np.isnan(o.bkg) != np.isnan(ref3.bkg)))
+                nr = int(np.sum(np.isnan(o.rms) != np.isnan(ref3.rms)))
+                db = float(np.nanmax(np.abs(o.bkg.astype(float) - ref3.bkg.astype(float)))) if np.isfinite(o.bkg).any() else 0.0
+                dr = float(np.nanmax(np.abs(o.rms.astype(float) - ref3.rms.astype(float)))) if np.isfinite(o.rms).any() else 0.0
+                worst3 = max(worst3, db, dr)
+                if nb or nr or max(db, dr) > 0.25:
+                    ctx.violation("blank band '%s', mask=%s: the maps for %d requested stripes differ from the single-stripe maps: %d / %d pixels are blank in one "
+                                  "and finite in the other (bkg / rms), finite pixels differ by up to %.3g / %.3g local sigma" % (band_name, mask, nslice, nb, nr, db, dr),
+                                  "stripe_dependence|band=%s,mask=%s,nslice=%d" % (band_name, mask, nslice), clause="cross_layout", case=dict(nslice=nslice, cores=cores))
+    cov["cross_layout"] = dict(max_abs_difference_in_sigma=worst, max_abs_difference_nonsquare_box=worst2, max_abs_difference_blank_bands=worst3, threshold=0.25,
                                image=[rows, cols], grid=grid, box=box)
 
 
